@@ -463,11 +463,14 @@ theorem fetchFix_closed (ctx : Ctx κ) (remote : Store κ) : ∀ (fuel : Nat) (l
 theorem readManifest_not_missing {ctx : Ctx κ} {s : Store κ} {d : Digest} (h : s.has d = true) :
     readManifest ctx s d ≠ .error .missingFromCache := by
   obtain ⟨o, ho⟩ := Store.has_eq_true.1 h
-  unfold readManifest
-  rw [ho]
+  have hck : ∀ cs : List Child, checkedChildren cs ≠ .error .missingFromCache := by
+    intro cs; unfold checkedChildren; split <;> simp
+  rw [readManifest_eq, ho]
   cases o with
-  | blob c => dsimp only; split <;> simp
-  | man sch p cs => simp
+  | blob c => dsimp only; split
+              · exact hck _
+              · simp
+  | man sch p cs => exact hck _
 
 theorem checkoutFile_not_missing {ctx : Ctx κ} {strat : Strat} {cur : Option (Node κ)} {sum : Digest} {s : Store κ}
     (h : s.has sum = true) : checkoutFile ctx strat cur sum s ≠ .error .missingFromCache := by
